@@ -24,7 +24,7 @@ use std::{
 };
 
 use proptest::{
-    strategy::{BoxedStrategy, Strategy},
+    strategy::BoxedStrategy,
     test_runner::{Config, RngAlgorithm, RngSeed, TestCaseError, TestError, TestRng, TestRunner},
 };
 use serde::{de::DeserializeOwned, Deserialize, Serialize};
